@@ -200,7 +200,8 @@ class Pool:
                     if not idle:
                         break
                     # a respawn costs ~1.5 s of CPU: only worth it for a real backlog
-                    if active(k) > 0 and len(queues[k]) / active(k) < 8:
+                    slow = any(z.job is not None and env_key(z.env) == k and time.monotonic() - z.sent_at > 2.0 for z in self.zygotes)
+                    if active(k) > 0 and len(queues[k]) / active(k) < 8 and not slow:
                         break
                     self._retire(idle[0])
                 self._spawn(envs[k])
